@@ -224,6 +224,11 @@ func (s *cliSim) cisco() {
 		}
 		if s.mode == "login" {
 			if line == "enable" {
+				if scn.Login == "enable-refused" {
+					s.out("% Access denied\n")
+					s.out(name + ">")
+					continue
+				}
 				if scn.Login == "enable-pass" {
 					s.out("Password: ")
 					awaitEnablePass = true
